@@ -251,6 +251,11 @@ where
         self.inner.streams.has_streams()
     }
 
+    #[cfg(feature = "verif-hooks")]
+    pub(crate) fn verif_snapshot(&self) -> crate::verif::StreamsSnapshot {
+        self.inner.streams.verif_snapshot()
+    }
+
     /// Checks if there are any streams or references left
     pub fn has_streams_or_other_references(&self) -> bool {
         // If we poll() and realize that there are no streams or references
